@@ -9,8 +9,11 @@ pub mod c04;
 pub mod common;
 pub mod c07;
 pub mod c08;
+pub mod c11;
 pub mod c12;
 pub mod c16;
+pub mod c19;
+pub mod c20;
 pub mod c18;
 pub mod crash;
 
@@ -24,8 +27,11 @@ pub fn all() -> Vec<Box<dyn Check>> {
         Box::new(crash::Crash { id: "C06" }),
         Box::new(c07::C07),
         Box::new(c08::C08),
+        Box::new(c11::C11),
         Box::new(c12::C12),
         Box::new(c16::C16),
+        Box::new(c19::C19),
+        Box::new(c20::C20),
     ]
 }
 
